@@ -2057,8 +2057,10 @@ DLLEXPORT int tj3SetCroppingRegion(tjhandle handle, tjregion croppingRegion)
   if (croppingRegion.h == 0)
     croppingRegion.h = scaledHeight - croppingRegion.y;
   if (croppingRegion.w <= 0 || croppingRegion.h <= 0 ||
-      croppingRegion.x + croppingRegion.w > scaledWidth ||
-      croppingRegion.y + croppingRegion.h > scaledHeight)
+      croppingRegion.x > scaledWidth ||
+      croppingRegion.w > scaledWidth - croppingRegion.x ||
+      croppingRegion.y > scaledHeight ||
+      croppingRegion.h > scaledHeight - croppingRegion.y)
     THROW("The cropping region exceeds the scaled image dimensions");
 
   this->croppingRegion = croppingRegion;
